@@ -206,7 +206,7 @@ fn gen_type_case(ch: &mut Chooser, max_depth: usize) -> TypeCase {
 
 // ---------- structural constructs ----------
 
-const STRUCTURAL: [&str; 26] = [
+const STRUCTURAL: [&str; 28] = [
     "const-not",
     "const-not-paren",
     "const-deref-ref",
@@ -226,6 +226,9 @@ const STRUCTURAL: [&str; 26] = [
     "unit-enum-with-tag",
     "unit-enum-with-content",
     "unit-enum-with-both",
+    // the key is there but names nothing: still a tag / content attribute on a unit enum
+    "unit-enum-with-empty-tag",
+    "unit-enum-with-blank-content",
     "const-string",
     "const-float",
     "const-bool",
@@ -306,11 +309,11 @@ pub fn structural_program(kind: &str, skip: Skip) -> Option<(File, Option<File>)
             }
             File::single(vec![e])
         }
-        "unit-enum-with-tag" | "unit-enum-with-content" | "unit-enum-with-both" => {
+        k if k.starts_with("unit-enum-with-") => {
             let dress = |e: &mut Item| {
                 if let IKind::Enum { tag, content, .. } = &mut e.kind {
-                    *tag = (kind != "unit-enum-with-content").then(|| "t".to_string());
-                    *content = (kind != "unit-enum-with-tag").then(|| "c".to_string());
+                    *tag = match kind { "unit-enum-with-empty-tag" => Some(String::new()), "unit-enum-with-content" | "unit-enum-with-blank-content" => None, _ => Some("t".to_string()) };
+                    *content = match kind { "unit-enum-with-blank-content" => Some(" ".to_string()), "unit-enum-with-tag" | "unit-enum-with-empty-tag" => None, _ => Some("c".to_string()) };
                 }
             };
             let mut e = Item::enumm("Outer", vec![Variant::new("A", VKind::Unit), Variant::new("B", VKind::Unit)]);
